@@ -14,6 +14,7 @@ import (
 	"k8s.io/apimachinery/pkg/util/intstr"
 	"sigs.k8s.io/controller-runtime/pkg/client"
 
+	"github.com/openkruise/rollouts/api/v1alpha1"
 	"github.com/openkruise/rollouts/api/v1beta1"
 	"github.com/openkruise/rollouts/pkg/util"
 	"github.com/openkruise/rollouts/pkg/webhook/rollout/validating"
@@ -505,11 +506,17 @@ func (r *Run) doUser(a string) {
 			}
 		}
 	case "v3":
+		rolling := false
+		if ro := r.Rollout(); ro != nil {
+			cond := util.GetRolloutCondition(ro.Status, v1beta1.RolloutConditionProgressing)
+			rolling = ro.Status.Phase == v1beta1.RolloutPhaseProgressing && cond != nil && (cond.Reason == "InRolling" || cond.Reason == "Paused")
+		}
 		err = s.SetTemplate(w, "v3")
-		if s.Style != "bluegreen" {
+		if s.Style != "bluegreen" || !rolling {
+			// (published while a blue-green release is being cleaned up, v3 is simply the next release)
 			r.target = "v3"
 		} else if r.mode == "release" {
-			// a blue-green release refuses supersession and waits for the user to roll back
+			// a blue-green release in progress refuses supersession and waits for the user to roll back
 			r.mode = "bg-superseded"
 		}
 	case "delete":
@@ -547,6 +554,11 @@ func (r *Run) doUser(a string) {
 		r.ridSeq++
 		body := fmt.Sprintf(`{"metadata":{"labels":{"rollouts.kruise.io/rollout-id":"rid-%s-%d"}}}`, strings.TrimPrefix(r.target, "v"), r.ridSeq)
 		err = user.Patch(c, obj, client.RawPatch(types.MergePatchType, []byte(body)))
+	case "delete-tr":
+		tr := &v1alpha1.TrafficRouting{}
+		if err = user.Get(c, types.NamespacedName{Namespace: s.NS, Name: s.TRName()}, tr); err == nil {
+			err = user.Delete(c, tr)
+		}
 	case "restart":
 		w.Restart()
 	case "noop":
@@ -695,6 +707,10 @@ func (r *Run) Execute() {
 	startActions := r.Actions
 	refusedAt := -1
 	for r.Actions-startActions < r.Budget {
+		if r.W.Runaway != "" {
+			r.StopReason = "runaway object growth: " + r.W.Runaway
+			return
+		}
 		if r.mode == "bg-superseded" && r.terminalNow() {
 			// refused supersession: the BatchRelease keeps retrying with errors (rate limited in production), so the
 			// cluster never goes quiet; watch a little longer and stop
